@@ -37,6 +37,10 @@ def special_names():
         st.sampled_from(["z", "y", "x", "b", "a", "A", "Z", "0", "~", " a", "a ", " ", "..", "...", "a.b", "#", "%s",
                          "ü", "Ü", "日本", "😀", "a\\b", "a:b", "name with blanks", "-", "_"]),
         gen.names(),
+        # distinct names that only differ by Unicode normalisation form, case or blanks: both of a pair are legal
+        # in one parent and name different entities
+        st.sampled_from(["e\u0301", "\u00e9", "\u2126", "\u03a9", "\u212b", "\u00c5", "a\u0308", "\u00e4", "\ufb01", "fi",
+                         "K", "\u212a", "x", "X", "x ", " x"]),
         st.tuples(st.sampled_from(["ab", "x", "ü", "0123456789"]), st.sampled_from([50, 255, 256, 1000])).map(
             lambda t: {"rep": [t[0], t[1] // len(t[0])]}),
         hex32,
@@ -109,7 +113,10 @@ def check_container(ctx, case, where, label, cont, members, keyed_by_name=True, 
         if keyed_by_name:
             try:
                 e = cont[nm]
-                if e.id != eid:
+                # a link list may hold several members of one name (sources from different levels of the
+                # tree): a lookup by that name may answer with any of them, but only with a member
+                same = {i2 for n2, i2 in order if n2 == nm}
+                if e.id != eid and not ("(links)" in label and e.id in same):
                     ctx.violation("C03/name-lookup/%s" % ncls, case,
                                   {"container": label, "where": where, "name": nm[:40], "want": eid, "got": e.id})
             except Exception as exc:  # noqa
@@ -322,7 +329,11 @@ def run_case(case, ctx):
 def _dup_attempt(it, ent, how):
     """try to create a second entity named like ``ent`` in ent's parent; returns the outcome"""
     import numpy as np
-    ph = it.handle(ent.parent, how) if ent.parent is not it.root else it.f
+    try:
+        ph = it.handle(ent.parent, how) if ent.parent is not it.root else it.f
+    except Exception as exc:  # noqa
+        # an existing entity (the parent) cannot be retrieved through the requested key
+        return "parent-not-retrievable:%s:%s" % (how, type(exc).__name__)
     name = ent.name
     try:
         if ent.kind == "block":
@@ -341,7 +352,10 @@ def _dup_attempt(it, ent, how):
             ph.create_tag(name, "dup", [0.0])
         elif ent.kind == "mtag":
             pos = ent.single.get("positions")
-            ph.create_multi_tag(name, "dup", positions=it.handle(pos))
+            if pos in (None, "dangling") or not pos.alive:       # its positions array was deleted meanwhile
+                ph.create_multi_tag(name, "dup", positions=[[1.0]])
+            else:
+                ph.create_multi_tag(name, "dup", positions=it.handle(pos))
         elif ent.kind == "source":
             ph.create_source(name, "dup")
         else:
@@ -420,6 +434,24 @@ def case_strategy(draw, max_ops):
         if op["op"] in NAME_OPS and draw(st.integers(0, 3)) == 0:
             # duplicate attempt in the same parent as the entity just created
             out.append({"op": "dup_last", "how": draw(ops.HOW)})
+    if draw(st.integers(0, 2)) == 0:
+        # a source tree that repeats one name at several levels, with NESTED sources in the link lists while
+        # their top-level namesakes are not: name lookups on a link list concern its members only
+        nm = draw(st.sampled_from(["s", "src", "\u00fc", "e\u0301"]))
+        sc = [{"op": "mk_block", "name": "sblk", "type": "t"}]
+        b = 0
+        sc += [{"op": "mk_source", "blk": b, "p": None, "name": nm, "type": "t"},
+               {"op": "mk_source", "blk": b, "p": 0, "name": nm, "type": "t"},
+               {"op": "mk_source", "blk": b, "p": None, "name": nm + "2", "type": "t"},
+               {"op": "mk_source", "blk": b, "p": 2, "name": nm, "type": "t"},
+               {"op": "mk_source", "blk": b, "p": 1, "name": nm, "type": "t"},
+               {"op": "mk_array", "blk": b, "name": "da", "type": "t", "dtype": "float64", "shape": [2]},
+               {"op": "mk_group", "blk": b, "name": "g", "type": "t"},
+               {"op": "mk_tag", "blk": b, "name": "tg", "type": "t", "pos": [1.0]}]
+        for k in ("array", "group", "tag"):
+            for tgt in draw(st.lists(st.sampled_from([1, 3, 4, 2]), min_size=1, max_size=2, unique=True)):
+                sc.append({"op": "link", "k": k, "t": 0, "role": "sources", "target": tgt})
+        out = sc + out
     return {"prog": out, "policy": draw(st.sampled_from(["fresh", "cached", "two", "two"]))}
 
 
